@@ -340,9 +340,11 @@ def rule_eqvshape(ctx, prop: str) -> RuleResult:
     #      the configuration effects those analyses compute
     gr = m.func("get_repr_proc")
     finds = [n for n in gr.body_nodes() if isinstance(n, ast.Call) and isinstance(n.func, ast.Attribute) and n.func.attr == "find"]
-    need(bool(finds) and all(dotted(n.func.value) == "_UF_Strict" for n in finds), gr, "repr-strict",
-         "get_repr_proc must return the representative of the strict relation: with the universal one a callee derived by delete_config/write_config is analysed as its origin "
-         "(its configuration writes invented or forgotten) and delete_config / call_eqv accept changes of a field that is read later")
+    repr_callers = [fn for fn in ix.all_funcs() if fn.file.startswith("src/exo/") and fn is not gr and any(isinstance(k, ast.Call) and last_name(k) == "get_repr_proc" for k in fn.body_nodes())]
+    if repr_callers:
+      need(bool(finds) and all(dotted(n.func.value) == "_UF_Strict" for n in finds), gr, "repr-strict",
+           "get_repr_proc must return the representative of the strict relation: with the universal one a callee derived by delete_config/write_config is analysed as its origin "
+           "(its configuration writes invented or forgotten) and delete_config / call_eqv accept changes of a field that is read later")
     # (6) union-find core
     uf = m.cls("_UnionFind")
     un = uf.methods["union"]
